@@ -3,6 +3,7 @@ package types
 import (
 	"encoding/json"
 	"fmt"
+	"sort"
 
 	"github.com/pokt-network/pocket-core/codec"
 	"github.com/pokt-network/pocket-core/crypto"
@@ -329,7 +330,15 @@ func NormalizeRewardDelegators(
 ) ([]AddressAndShare, sdk.Error) {
 	normalized := make([]AddressAndShare, 0, len(delegators))
 	totalShares := uint64(0)
-	for addrStr, rewardShare := range delegators {
+	// Rewards are paid in the order of this slice, and paying a delegator may create its account:
+	// the order must not be Go's map iteration order.
+	addrStrs := make([]string, 0, len(delegators))
+	for addrStr := range delegators {
+		addrStrs = append(addrStrs, addrStr)
+	}
+	sort.Strings(addrStrs)
+	for _, addrStr := range addrStrs {
+		rewardShare := delegators[addrStr]
 		if rewardShare == 0 {
 			return nil, ErrInvalidRewardDelegators(
 				DefaultCodespace,
